@@ -1,10 +1,14 @@
 /-
   C12 — Configuration files compose by union, with the last SOA winning.
-  FIRST-CLAIM version: SOA selection and apex-SOA uniqueness of `Zone::merge`; the set-union
-  theorem `abs (merge z₁ z₂) = abs z₁ ∪ abs z₂` (ordinary and wildcard entries) is the next
-  theorem and is, until it closes, checked by the Impl-vs-Spec oracle on the streams only.
+  SOA selection and apex-SOA uniqueness of `Zone::merge`; `merge_zrs_helper` is a union per record
+  type; `ZoneRecords::merge` is a node-wise union at every owner name (ordinary and wildcard sets,
+  children); MAIN: the merged zone represents the united entry list, hence (under D1) resolves as
+  the flat specification prescribes for the union (`C12_merge_resolve_refines_union_spec`);
+  `Zones::insert_merge` never panics.
+  Helper lemmas: Proofs/Zone*.lean.
 -/
 import Resolved.Spec.ZoneSpec
+import Resolved.Proofs.ZoneUnion
 
 namespace Resolved
 
@@ -29,7 +33,7 @@ theorem C12_dropApexSoa_no_soa (n : ZNode) : (Zone.dropApexSoa n).this.get RT_SO
   | mk nsd this wild ch =>
     simp only [Zone.dropApexSoa, ZNode.this]
     induction this with
-    | nil => simp [RecMap.get]
+    | nil => simp
     | cons kv rest ih =>
       simp only [List.filter]
       split
@@ -39,5 +43,254 @@ theorem C12_dropApexSoa_no_soa (n : ZNode) : (Zone.dropApexSoa n).this.get RT_SO
         · rename_i heq; simp [heq] at hk
         · exact ih
       · exact ih
+
+/-! ## record-set level: `merge_zrs_helper` is a union -/
+
+/-- The inner loop of `merge_zrs_helper` computes the union of the two record lists: same members,
+    no duplicate introduced, and the receiver's records stay in front in their original order. -/
+theorem C12_mergeEntries_union (mine other : List ZoneRecord) :
+    (∀ x, x ∈ mergeEntries mine other ↔ x ∈ mine ∨ x ∈ other) ∧
+    (mine.Nodup → (mergeEntries mine other).Nodup) ∧
+    mine <+: mergeEntries mine other :=
+  ⟨mem_mergeEntries mine other, mergeEntries_nodup mine other, mergeEntries_prefix mine other⟩
+
+/-- … in closed form: the receiver's list followed by the new records of the other, de-duplicated;
+    merging into a duplicate-free list is de-duplication of the concatenation. -/
+theorem C12_mergeEntries_closed_form (mine other a : List ZoneRecord) :
+    mergeEntries mine other = mine ++ (other.removeAll mine).eraseDups ∧
+    mergeEntries a.eraseDups other = (a ++ other).eraseDups :=
+  ⟨mergeEntries_eq mine other, mergeEntries_eraseDups a other⟩
+
+/-- `merge_zrs_helper` type by type (the merged-in map has distinct keys, as a `HashMap` does). -/
+theorem C12_mergeZrs_get (a b : RecMap) (k : Nat) (hb : (b.map (·.1)).Nodup) :
+    (mergeZrs a b).get k =
+      match a.get k, b.get k with
+      | none, none => none
+      | some x, none => some x
+      | none, some y => some y
+      | some x, some y => some (mergeEntries x y) :=
+  RecMap.get_mergeZrs a b k hb
+
+/-! ## tree level: `ZoneRecords::merge` is a node-wise union -/
+
+/-- Wildcard record sets are united too — including the case that the receiver has none yet. -/
+theorem C12_merge_wildcards (a b : ZNode) :
+    (ZNode.merge a b).wildcards =
+      match b.wildcards with
+      | some ow =>
+        (match a.wildcards with
+         | some mw => some (mergeZrs mw ow)
+         | none => some ow)
+      | none => a.wildcards := by
+  rw [ZNode.merge_wildcards]; rfl
+
+/-- The node's own record sets are united, and the receiver keeps its name. -/
+theorem C12_merge_this (a b : ZNode) :
+    (ZNode.merge a b).this = mergeZrs a.this b.this ∧ (ZNode.merge a b).nsdname = a.nsdname :=
+  ⟨ZNode.merge_this a b, ZNode.merge_nsdname a b⟩
+
+/-- Children: common labels are merged recursively, the others are taken over unchanged. -/
+theorem C12_merge_children_get (a b : ZNode) (l : Label)
+    (hb : (b.children.map (·.1)).Nodup) :
+    ZNode.childGet (ZNode.merge a b).children l =
+      match ZNode.childGet a.children l, ZNode.childGet b.children l with
+      | some x, some y => some (ZNode.merge x y)
+      | some x, none => some x
+      | none, some y => some y
+      | none, none => none := by
+  rw [ZNode.merge_children]; exact ZNode.childGet_mergeChildren _ _ l hb
+
+/-- `KeysNodup`: every node of the tree has distinct child labels.  It holds for the empty tree and
+    is preserved by every insertion — so it holds of every configured zone. -/
+theorem C12_keysNodup_new_insert :
+    (∀ nsd, ZNode.KeysNodup (ZNode.new nsd)) ∧
+    (∀ (node node' : ZNode) (rel : List Label) (zr : ZoneRecord) (wild : Bool),
+      ZNode.KeysNodup node → node.insert rel zr wild = some node' → ZNode.KeysNodup node') := by
+  refine ⟨ZNode.keysNodup_new, ?_⟩
+  intro node node' rel zr wild hk hi
+  rw [ZNode.insert_eq_rev] at hi
+  exact ZNode.keysNodup_insertRev _ zr wild node node' hk hi
+
+/-- MAIN (tree form): at EVERY owner name, the node of the merged tree is the merge of the two
+    nodes owning that name (or the only one that exists) — hence its record sets, wildcard sets and
+    children are the unions.  `nodeAt` follows the labels of `rel` from the last one. -/
+theorem C12_merge_resolve_union (a b : ZNode) (rel : List Label) (hb : ZNode.KeysNodup b) :
+    (ZNode.merge a b).nodeAt rel =
+      match a.nodeAt rel, b.nodeAt rel with
+      | some x, some y => some (ZNode.merge x y)
+      | some x, none => some x
+      | none, some y => some y
+      | none, none => none :=
+  ZNode.descend_merge rel.reverse a b hb
+
+/-- … so the record set of type `k` at an owner name present in both trees is the union of the two
+    record sets (receiver's records first), and likewise for the wildcard sets. -/
+theorem C12_merge_records_at (a b x y : ZNode) (rel : List Label) (k : Nat) (hb : ZNode.KeysNodup b)
+    (hx : a.nodeAt rel = some x) (hy : b.nodeAt rel = some y)
+    (hyk : (y.this.map (·.1)).Nodup) :
+    ∃ m, (ZNode.merge a b).nodeAt rel = some m ∧
+      m.wildcards = ZNode.mergeWild x.wildcards y.wildcards ∧
+      m.this.get k =
+        match x.this.get k, y.this.get k with
+        | none, none => none
+        | some u, none => some u
+        | none, some v => some v
+        | some u, some v => some (mergeEntries u v) := by
+  refine ⟨ZNode.merge x y, ?_, ZNode.merge_wildcards x y, ?_⟩
+  · rw [C12_merge_resolve_union a b rel hb, hx, hy]
+  · rw [ZNode.merge_this]; exact RecMap.get_mergeZrs _ _ k hyk
+
+/-- After merging in a zone that has an SOA (built by `Zone::new` and insertions of non-SOA
+    records), the apex holds exactly ONE SOA record: the merged-in zone's. -/
+theorem C12_merge_one_soa (z o m : Zone) (apex : Name) (s : SOA) (ops : List ZoneOp)
+    (ho : Zone.build apex (some s) ops = some o) (hops : ∀ op ∈ ops, op.rtype ≠ RT_SOA)
+    (h : z.merge o = some m) :
+    m.soa = some s ∧ m.records.this.get RT_SOA = some [⟨RT_SOA, s.toFields, s.minimum⟩] := by
+  have hsoa : o.soa = some s :=
+    (Zone.applyOps_apex_soa ops _ o ho).2.trans (Zone.new_apex_soa apex (some s)).2
+  have h0 : (Zone.new apex (some s)).records.this = [(RT_SOA, [Zone.soaRecord s])] :=
+    Zone.new_apex_this apex (some s)
+  obtain ⟨hkeys, hget⟩ := Zone.applyOps_apex_get RT_SOA ops hops _ o ho
+    (by rw [h0]; simp [RecMap.keys])
+  rw [h0] at hget
+  unfold Zone.merge at h
+  split at h
+  · cases h
+  · rw [hsoa] at h
+    simp only [Option.isSome_some, if_true, Option.some.injEq] at h
+    subst h
+    refine ⟨rfl, ?_⟩
+    simp only [ZNode.merge_this]
+    rw [RecMap.get_mergeZrs _ _ _ hkeys, C12_dropApexSoa_no_soa, hget]
+    simp [RecMap.get, Zone.soaRecord]
+
+/-! ## specification level: the merged zone IS the union of the configurations
+
+  `Zone.Repr z apex soa es` (Proofs/ZoneMain.lean) is the representation invariant of C02: zone `z`
+  has apex `apex`, SOA `soa`, and its tree stores exactly the flat entry list `es` (a node exists
+  exactly where a name exists; record and wildcard sets per owner and type, in configuration order,
+  without duplicates).  Every configured zone satisfies it (`Zone.repr_build`), and `Zone::merge`
+  preserves it with the entry lists united — so it composes over any number of files. -/
+
+/-- MAIN (entry form): `z.merge o` represents the receiver's entries (minus the receiver's apex SOA
+    records when `o` brings an SOA) followed by `o`'s entries; the SOA is `o`'s if it has one. -/
+theorem C12_merge_represents_union (z o m : Zone) (apex : Name) (s1 s2 : Option SOA)
+    (es1 es2 : List ZSpec.Entry)
+    (hz : Zone.Repr z apex s1 es1) (ho : Zone.Repr o apex s2 es2) (hk : ZNode.KeysNodup o.records)
+    (hm : z.merge o = some m) :
+    Zone.Repr m apex (if s2.isSome then s2 else s1) (unionEntries es1 es2 s2.isSome) :=
+  Zone.repr_merge z o m apex s1 s2 es1 es2 hz ho hk hm
+
+/-- the record set at any owner in the united entry list is the receiver's followed by the new
+    records of the other (`merge_zrs_helper` on the flat lists). -/
+theorem C12_union_recordsAt (es1 es2 : List ZSpec.Entry) (rel : List Label) (wild : Bool) :
+    ZSpec.recordsAt (es1 ++ es2) rel wild =
+      mergeEntries (ZSpec.recordsAt es1 rel wild) (ZSpec.recordsAt es2 rel wild) :=
+  recordsAt_append es1 es2 rel wild
+
+/-- MAIN (lookup form): two configured zones for the same apex, merged: under D1 for the united
+    entry list, every valid query name under the apex resolves in the merged tree exactly as the
+    flat specification prescribes for the union (ordinary AND wildcard entries). -/
+theorem C12_merge_resolve_refines_union_spec (apex : Name) (s1 s2 : Option SOA)
+    (ops1 ops2 : List ZoneOp) (z o m : Zone) (qname : Name) (qtype : Nat) (rel : List Label)
+    (hapex : NameOK apex) (hq : NameOK qname)
+    (hz : Zone.build apex s1 ops1 = some z) (ho : Zone.build apex s2 ops2 = some o)
+    (hm : z.merge o = some m)
+    (hrel : m.relativeDomain qname = some rel)
+    (hd1 : ZSpec.d1 (unionEntries (ZSpec.entriesOf apex s1 ops1) (ZSpec.entriesOf apex s2 ops2)
+      s2.isSome) = true) :
+    m.soa = (if s2.isSome then s2 else s1) ∧
+    ZSpec.sameResult (m.records.resolve qname qtype rel true)
+      (ZSpec.lookup (unionEntries (ZSpec.entriesOf apex s1 ops1) (ZSpec.entriesOf apex s2 ops2)
+        s2.isSome) apex qname rel qtype) = true := by
+  have hr := Zone.repr_merge z o m apex s1 s2 _ _ (Zone.repr_build apex s1 ops1 z hapex hz)
+    (Zone.repr_build apex s2 ops2 o hapex ho) (Zone.keysNodup_build apex s2 ops2 o ho) hm
+  refine ⟨hr.soa_eq, ?_⟩
+  have hl := Zone.relativeDomain_some hrel
+  rw [hr.apex_eq] at hl
+  exact resolve_refines_lookup hr.tree hr.root_name hq rel hl hd1
+
+/-- merging configured zones with the same apex never fails, and the result can be merged into
+    again (it keeps the invariant), so any number of files compose. -/
+theorem C12_merge_configured_isSome (apex : Name) (s1 s2 : Option SOA) (es1 es2 : List ZSpec.Entry)
+    (z o : Zone) (hz : Zone.Repr z apex s1 es1) (ho : Zone.Repr o apex s2 es2) :
+    (z.merge o).isSome := by
+  rw [C12_merge_apex, hz.apex_eq, ho.apex_eq]
+
+/-- `Zones::insert_merge` on a zone set keyed by apex (as `Zones::insert`/`insert_merge` keep it,
+    starting from the empty set): the `unwrap()` on `merge` never panics, the keying is kept, the
+    zone stored under the apex afterwards is the merge of the previous one with the new one (or the
+    new one itself), and no other apex is touched. -/
+theorem C12_insertMerge_never_panics (zs : Zones) (other : Zone) (h : Zones.KeyedByApex zs) :
+    ∃ zs', zs.insertMerge other = some zs' ∧ Zones.KeyedByApex zs' ∧
+      (∃ m, Zones.lookup zs'.zones other.apex = some m ∧
+        (match Zones.lookup zs.zones other.apex with
+         | some mine => mine.merge other = some m
+         | none => m = other)) ∧
+      ∀ k, k ≠ other.apex → Zones.lookup zs'.zones k = Zones.lookup zs.zones k :=
+  Zones.insertMerge_spec zs other h
+
+theorem C12_empty_zones_keyed : Zones.KeyedByApex Zones.empty := Zones.empty_keyed
+
+/-! ## non-vacuity -/
+
+namespace C12Example
+
+def apex : Name := ⟨[[97], []], 3⟩               -- "a."
+def w : Name := ⟨[[119], [97], []], 5⟩           -- "w.a."
+def ns : Name := ⟨[[110], []], 3⟩                -- "n."
+def soa1 : SOA := ⟨ns, ns, 1, 2, 3, 4, 300⟩
+def soa2 : SOA := ⟨ns, ns, 7, 2, 3, 4, 100⟩
+def r1 : ZoneRecord := ⟨1, [.a 1], 300⟩
+def r2 : ZoneRecord := ⟨1, [.a 2], 300⟩
+def r3 : ZoneRecord := ⟨1, [.a 3], 300⟩
+def t1 : ZoneRecord := ⟨16, [.opaque [1]], 300⟩
+
+example : mergeEntries [r1, r2] [r2, r3, r3, r1] = [r1, r2, r3] := by decide
+example : mergeZrs [(1, [r1, r2])] [(16, [t1]), (1, [r2, r3])] = [(1, [r1, r2, r3]), (16, [t1])] := by
+  decide
+
+/-- receiver without a wildcard set, merged-in tree with one (and a new child). -/
+def ta : ZNode := .mk apex [(1, [r1])] none [([119], .mk w [(1, [r1])] none [])]
+def tb : ZNode := .mk apex [(1, [r2])] (some [(1, [r3])]) [([119], .mk w [(1, [r2])] none [])]
+
+example : (ZNode.merge ta tb).wildcards = some [(1, [r3])] := by rw [C12_merge_wildcards]; rfl
+example : (ZNode.merge ta tb).this = [(1, [r1, r2])] := by rw [(C12_merge_this ta tb).1]; decide
+example : ((ZNode.childGet (ZNode.merge ta tb).children [119]).map (·.this)) = some [(1, [r1, r2])] := by
+  rw [C12_merge_children_get ta tb [119] (by decide)]
+  simp only [ta, tb, ZNode.children_mk, ZNode.childGet, if_true, Option.map_some, ZNode.merge_this,
+    ZNode.this_mk]
+  decide
+
+def ops1 : List ZoneOp := [{ name := w, rtype := 1, fields := [.a 1], ttl := 60, wild := false }]
+def ops2 : List ZoneOp :=
+  [{ name := w, rtype := 1, fields := [.a 2], ttl := 60, wild := false },
+   { name := apex, rtype := 1, fields := [.a 3], ttl := 60, wild := true }]
+
+/-- both files build, merge, and the merged apex holds the second file's SOA record only. -/
+example : (Zone.build apex (some soa1) ops1).isSome ∧ (Zone.build apex (some soa2) ops2).isSome :=
+  ⟨Zone.applyOps_isSome apex _ ops1 (by decide) _ _ (Zone.repr_new apex _ (by decide)),
+   Zone.applyOps_isSome apex _ ops2 (by decide) _ _ (Zone.repr_new apex _ (by decide))⟩
+
+example (z o : Zone) (hz : Zone.build apex (some soa1) ops1 = some z)
+    (ho : Zone.build apex (some soa2) ops2 = some o) :
+    ∃ m, z.merge o = some m ∧ m.soa = some soa2 ∧
+      m.records.this.get RT_SOA = some [⟨RT_SOA, soa2.toFields, 100⟩] := by
+  have h := C12_merge_configured_isSome apex _ _ _ _ z o
+    (Zone.repr_build apex _ ops1 z (by decide) hz) (Zone.repr_build apex _ ops2 o (by decide) ho)
+  obtain ⟨m, hm⟩ := Option.isSome_iff_exists.mp h
+  exact ⟨m, hm, C12_merge_one_soa z o m apex soa2 ops2 ho (by decide) hm⟩
+
+/-- D1 holds of the union, whose `w.a.` A set is the first file's record then the second's, and the
+    receiver's SOA entry is gone. -/
+example :
+    let es := unionEntries (ZSpec.entriesOf apex (some soa1) ops1) (ZSpec.entriesOf apex (some soa2) ops2) true
+    ZSpec.d1 es = true ∧
+    ZSpec.recordsAt es [[119]] false = [⟨1, [.a 1], 300⟩, ⟨1, [.a 2], 100⟩] ∧
+    ZSpec.recordsAt es [] false = [Zone.soaRecord soa2] ∧
+    ZSpec.recordsAt es [] true = [⟨1, [.a 3], 100⟩] := by
+  rw [ZSpec.entriesOf_eq, ZSpec.entriesOf_eq]; decide
+
+end C12Example
 
 end Resolved
